@@ -1,0 +1,85 @@
+//go:build verif
+
+package tbtc
+
+import (
+	"context"
+	"crypto/ecdsa"
+	"math/big"
+
+	"github.com/keep-network/keep-core/pkg/chain"
+	"github.com/keep-network/keep-core/pkg/generator"
+	"github.com/keep-network/keep-core/pkg/net"
+	"github.com/keep-network/keep-core/pkg/protocol/group"
+)
+
+// Thin exported wrappers used by the /verif harness (property C46, does the
+// signing executor obey the action deadline). They build ONE signingExecutor
+// with the production constructor and the production attempts limit and call
+// its sign / signBatch. No behaviour of their own.
+
+// VerifC46SigningExecutor wraps one signingExecutor.
+type VerifC46SigningExecutor struct {
+	se *signingExecutor
+}
+
+// VerifC46NewSigningExecutor calls newSigningExecutor for the given seats of
+// a wallet with the given public key and signing group operators. The signers
+// carry no private key share (the harness never lets an attempt reach the
+// signing protocol).
+func VerifC46NewSigningExecutor(
+	walletPublicKey *ecdsa.PublicKey,
+	operators chain.Addresses,
+	seats []group.MemberIndex,
+	broadcastChannel net.BroadcastChannel,
+	membershipValidator *group.MembershipValidator,
+	groupParameters *GroupParameters,
+	getCurrentBlockFn func() (uint64, error),
+	waitForBlockFn func(context.Context, uint64) error,
+) *VerifC46SigningExecutor {
+	signers := make([]*signer, len(seats))
+	for i, seat := range seats {
+		signers[i] = &signer{
+			wallet: wallet{
+				publicKey:             walletPublicKey,
+				signingGroupOperators: operators,
+			},
+			signingGroupMemberIndex: seat,
+		}
+	}
+
+	return &VerifC46SigningExecutor{
+		se: newSigningExecutor(
+			signers,
+			broadcastChannel,
+			membershipValidator,
+			groupParameters,
+			generator.NewProtocolLatch(),
+			getCurrentBlockFn,
+			waitForBlockFn,
+			signingAttemptsLimit,
+		),
+	}
+}
+
+// Sign calls signingExecutor.sign; signed reports whether a signature was
+// returned.
+func (e *VerifC46SigningExecutor) Sign(
+	ctx context.Context,
+	message *big.Int,
+	startBlock uint64,
+) (signed bool, endBlock uint64, err error) {
+	signature, _, endBlock, err := e.se.sign(ctx, message, startBlock)
+	return signature != nil, endBlock, err
+}
+
+// SignBatch calls signingExecutor.signBatch; signed is the number of
+// signatures returned.
+func (e *VerifC46SigningExecutor) SignBatch(
+	ctx context.Context,
+	messages []*big.Int,
+	startBlock uint64,
+) (signed int, err error) {
+	signatures, err := e.se.signBatch(ctx, messages, startBlock)
+	return len(signatures), err
+}
